@@ -349,6 +349,10 @@ func (mr *memRepo) blobMeta(d digest.Digest, locked bool) (blobMeta, error) {
 
 // BlobCreate is used to create a new blob.
 func (mr *memRepo) BlobCreate(opts ...BlobOpt) (BlobCreator, string, error) {
+	return mr.blobCreate(false, opts...)
+}
+
+func (mr *memRepo) blobCreate(locked bool, opts ...BlobOpt) (BlobCreator, string, error) {
 	if *mr.conf.Storage.ReadOnly {
 		return nil, "", types.ErrReadOnly
 	}
@@ -361,8 +365,10 @@ func (mr *memRepo) BlobCreate(opts ...BlobOpt) (BlobCreator, string, error) {
 			return nil, "", err
 		}
 	}
-	mr.mu.Lock()
-	defer mr.mu.Unlock()
+	if !locked {
+		mr.mu.Lock()
+		defer mr.mu.Unlock()
+	}
 	// if blob exists, return the appropriate error
 	if conf.expect != "" {
 		b, ok := mr.blobs[conf.expect]
